@@ -2,7 +2,7 @@
 (* Model-checking wrapper for KeySet.tla: every public call with every     *)
 (* argument over a small key universe (the "API model": X01.2, X01.3 and   *)
 (* the structural invariants), and the per-transition S->I generator.      *)
-EXTENDS KeySet, KeySetNames, Json
+EXTENDS KeySet, KeySetNames, Json, IOUtils
 
 CONSTANTS KeySeq,      \* the key universe as a sequence (fixes list order); names
                        \* start with k (KSK), z (ZSK), c (CSK), i (Include)
@@ -42,26 +42,26 @@ Ttls == 0..MaxTTL
 
 AddKeyA      == \E k \in MCKeys, av \in BOOLEAN :
                   /\ "add_unavailable" \in Ops \/ av
-                  /\ \E tg \in TagsFor(k) : Do([op |-> "add", k |-> k, avail |-> av, tag |-> tg])
-DeleteKeyA   == \E k \in MCKeys : Do([op |-> "delete_key", k |-> k])
+                  /\ \E tg \in TagsFor(k) : Do([avail |-> av, k |-> k, op |-> "add", tag |-> tg])
+DeleteKeyA   == \E k \in MCKeys : Do([k |-> k, op |-> "delete_key"])
 SetPresentA  == "set_present" \in Ops /\ \E k \in SetKeys, v \in BOOLEAN :
-                  Do([op |-> "set_present", k |-> k, v |-> v])
+                  Do([k |-> k, op |-> "set_present", v |-> v])
 SetSignerA   == "set_signer" \in Ops /\ \E k \in SetKeys, v \in BOOLEAN :
-                  Do([op |-> "set_signer", k |-> k, v |-> v])
+                  Do([k |-> k, op |-> "set_signer", v |-> v])
 SetAtParentA == "set_at_parent" \in Ops /\ \E k \in SetKeys, v \in BOOLEAN :
-                  Do([op |-> "set_at_parent", k |-> k, v |-> v])
-SetStaleA    == "set_stale" \in Ops /\ \E k \in SetKeys : Do([op |-> "set_stale", k |-> k])
+                  Do([k |-> k, op |-> "set_at_parent", v |-> v])
+SetStaleA    == "set_stale" \in Ops /\ \E k \in SetKeys : Do([k |-> k, op |-> "set_stale"])
 SetDecoupledA == "set_decoupled" \in Ops /\ \E k \in SetKeys, v \in BOOLEAN :
-                  Do([op |-> "set_decoupled", k |-> k, v |-> v])
+                  Do([k |-> k, op |-> "set_decoupled", v |-> v])
 SetVisibleA  == "set_visible" \in Ops /\ \E k \in SetKeys, a \in Ttls :
-                  Do([op |-> "set_visible", k |-> k, age |-> a])
+                  Do([age |-> a, k |-> k, op |-> "set_visible"])
 SetDsVisibleA == "set_ds_visible" \in Ops /\ \E k \in SetKeys, a \in Ttls :
-                  Do([op |-> "set_ds_visible", k |-> k, age |-> a])
+                  Do([age |-> a, k |-> k, op |-> "set_ds_visible"])
 SetRrsigVisibleA == "set_rrsig_visible" \in Ops /\ \E k \in SetKeys, a \in Ttls :
-                  Do([op |-> "set_rrsig_visible", k |-> k, age |-> a])
+                  Do([age |-> a, k |-> k, op |-> "set_rrsig_visible"])
 StartRollA   == \E rt \in Rts : \E old \in StartLists(rt), new \in StartLists(rt) :
                   (NoopRolls \/ old # <<>> \/ new # <<>>) /\
-                  Do([op |-> "start_roll", rt |-> rt, old |-> old, new |-> new])
+                  Do([new |-> new, old |-> old, op |-> "start_roll", rt |-> rt])
 Propagation1CompleteA == \E rt \in Rts, ttl \in Ttls :
                   Do([op |-> "propagation1_complete", rt |-> rt, ttl |-> ttl])
 CacheExpired1A == \E rt \in Rts : Do([op |-> "cache_expired1", rt |-> rt])
@@ -118,6 +118,12 @@ CoverT ==
 --------------------------------------------------------------------------
 (* S->I: one case per explored transition (state, call): the pre-state to  *)
 (* inject, the call, and for every set of deviations the allowed outcomes. *)
+
+\* the generators explore the behaviour of the code as it is today: the
+\* deviations listed as open (environment variables D_<name> = "1")
+OpenDevs == (IF IOEnv.D_ksk_stale_filter = "1" THEN {"D_ksk_stale_filter"} ELSE {})
+       \cup (IF IOEnv.D_double_ds_visible = "1" THEN {"D_double_ds_visible"} ELSE {})
+       \cup (IF IOEnv.D_expect_panic = "1" THEN {"D_expect_panic"} ELSE {})
 
 DevSets == SUBSET AllDevs
 DevSeq(d) == LET R[s \in SUBSET d] == IF s = {} THEN <<>>
@@ -181,7 +187,7 @@ SimStart ==
                         \A i \in 1..Len(o) : MCKType(o[i]) = MCKType(new[i]) /\ MCKAlg(o[i]) = MCKAlg(new[i])}
     IN \E new \in {Rnd(ListsOver(pn))} :
          \E old \in {Rnd(IF smart >= 3 /\ Like(new) # {} THEN Like(new) ELSE ListsOver(po))} :
-           Do([op |-> "start_roll", rt |-> rt, old |-> old, new |-> new])
+           Do([new |-> new, old |-> old, op |-> "start_roll", rt |-> rt])
 
 SimStep ==
   \E ttl \in {Rnd(Ttls)}, coin \in {Rnd(1..10)} :
@@ -196,14 +202,14 @@ SimSet ==
   IF SetOps = {} \/ SetKeys = {} THEN TickA
   ELSE \E o \in {Rnd(SetOps)}, k \in {Rnd(SetKeys)},
           v \in {Rnd(BOOLEAN)}, a \in {Rnd(Ttls)} :
-         Do([op |-> o, k |-> k, v |-> v, age |-> a])
+         Do([age |-> a, k |-> k, op |-> o, v |-> v])
 
 SimNext ==
   \E c \in {Rnd(1..100)} :
     IF c <= 12 THEN \E k \in {Rnd(MCKeys)}, av \in {Rnd(1..10)} :
                       \E tg \in {Rnd(TagsFor(k))} :
-                        Do([op |-> "add", k |-> k, avail |-> (av # 1), tag |-> tg])
-    ELSE IF c <= 17 THEN \E k \in {Rnd(MCKeys)} : Do([op |-> "delete_key", k |-> k])
+                        Do([avail |-> (av # 1), k |-> k, op |-> "add", tag |-> tg])
+    ELSE IF c <= 17 THEN \E k \in {Rnd(MCKeys)} : Do([k |-> k, op |-> "delete_key"])
     ELSE IF c <= 32 THEN SimStart
     ELSE IF c <= 72 THEN SimStep
     ELSE IF c <= 90 THEN TickA
